@@ -13,7 +13,7 @@ HERE = os.path.dirname(os.path.abspath(__file__))
 sys.path.insert(0, HERE)
 import vlib
 
-SKIP = {"gen_manifest", "gen_all", "gen_c14_synth", "gen_seeded_table"}
+SKIP = {"gen_manifest", "gen_all", "gen_c14_synth", "gen_seeded_table", "gen_fix_table", "gen_design_tables"}
 
 
 def main():
